@@ -116,13 +116,33 @@ func walkLeaves(v reflect.Value, path, key string, out *[]Leaf, inKnownXR bool) 
 	}
 }
 
+// OverWidth sets every leaf whose Go type is wider than its wire field to a value the wire cannot
+// hold (mode 0: all ones of the Go type; mode 1: exactly 1<<width) and returns how many leaves it
+// changed. Such values are outside the well-formed domain; they are used where a property speaks
+// about all packet values (encoders must not repair their argument in place).
+func OverWidth(p rtcp.Packet, mode int) int {
+	n := 0
+	for _, l := range Leaves(p) {
+		if l.Kind != "uint" || l.Bits >= l.v.Type().Bits() {
+			continue
+		}
+		if mode == 0 {
+			l.v.SetUint(uint64(1)<<uint(l.v.Type().Bits()) - 1)
+		} else {
+			l.v.SetUint(uint64(1) << uint(l.Bits))
+		}
+		n++
+	}
+	return n
+}
+
 // NAlt is the number of alternative values of the leaf in the given tier.
 func (l Leaf) alphabet(thorough bool) []uint64 {
 	switch l.Kind {
 	case "bool":
 		return []uint64{0, 1}
 	case "bytes", "string":
-		return []uint64{0, 1, 2, 3}
+		return []uint64{0, 1, 2, 3, 4}
 	case "float":
 		return floatAlphabet
 	}
@@ -232,6 +252,15 @@ func fillPattern(b []byte, a uint64) {
 			b[i] = 0xff
 		case 2:
 			b[i] = byte(0x80 + i)
+		case 4:
+			// valid multi-byte UTF-8 (two-octet runes), so that octet count != rune count
+			if i%2 == 0 && i+1 < len(b) {
+				b[i] = 0xc3
+			} else if i%2 == 1 {
+				b[i] = byte(0xa0 + i%0x20)
+			} else {
+				b[i] = 'z'
+			}
 		default:
 			b[i] = byte('A' + i%26)
 		}
